@@ -634,6 +634,8 @@ def _t_gradient(c):
     else:
         n = c.int(1, nd)
         ax = tuple(c.signed_axis(a, nd) for a in c.sample(range(nd), n))
+        if len(ax) > 1 and c.bool():
+            ax = ax[::-1]  # the axes in any order (NumPy returns one array per entry, in the order written)
         fn = lambda ns, x: ns.stack(ns.gradient(x, axis=ax)) if len(ax) > 1 else ns.gradient(x, axis=ax)
     return Call("s:gradient", fn, [s], desc=["gradient", list(s), ax], feats={"fn": "gradient", "axis_kind": k})
 
